@@ -708,9 +708,13 @@ class InspectFunction(object):
 
         def fetch(dep: DDSPath) -> PyHash:
             key = gctx.resolved_references.get(dep)
-            assert (
-                key is not None
-            ), f"Missing dep {dep} for {fun_path}: {call_stack} {gctx.resolved_references}"
+            if key is None:
+                raise DDSException(
+                    f"The function {fun_path} loads the path {dep}, which is produced later in the same "
+                    f"evaluation. A path must be produced (with dds.keep or with a data function) before "
+                    f"it is loaded. Call stack: {call_stack}",
+                    DDSErrorCode.LOAD_BEFORE_STORE,
+                )
             return key
 
         indirect_deps_sigs = dict([(dep, fetch(dep)) for dep in indirect_dep])
@@ -930,6 +934,8 @@ class InspectFunction(object):
             )
             inner_intro = _introspect(called_fun, arg_ctx, gctx, new_call_stack)
             inner_intro = inner_intro._replace(store_path=store_path)
+            # Register the path: it can be loaded later in the same evaluation.
+            gctx.resolved_references[store_path] = inner_intro.fun_return_sig
             return inner_intro
 
         # Normal function call.
